@@ -72,7 +72,7 @@ func (C04) Meta() core.Meta {
 
 func (C04) Runs(tier string) uint64 {
 	if tier == "thorough" {
-		return 6000000
+		return 2500000
 	}
 	return 200000
 }
@@ -380,7 +380,7 @@ func (C04) NewPlan(r *core.Rand, tier string, i uint64) interface{} {
 		p.Doubling = true
 		p.Pre, p.Unit, p.Mid, p.Unit2, p.Post = u[0], u[1], u[2], u[3], u[4]
 		p.N = []int{50, 200, 1000, 4000}[r.Weighted([]int{4, 4, 2, 1})]
-		if tier == "thorough" && r.Chance(1, 4) {
+		if tier == "thorough" && r.Chance(1, 12) {
 			p.N = 10000
 		}
 		p.Entry = "query"
